@@ -419,6 +419,10 @@ def check(ctx: Ctx):
             fn(ctx)
         except (Undecided, AnchorMissing) as e:
             ctx.undecided(rule, None, None, f"{rule}:{fn.__name__}", f"{type(e).__name__}: {e}")
+    # the value depends on the two masks only: no state kept between calls (R15.7)
+    from . import c03, c15
+
+    c03._guarded(ctx, "R15.7", c15.check_globals)
 
 
 _A = "panoptica/metrics/assd.py"
